@@ -316,6 +316,16 @@ pub fn run(tier: Tier) -> Report {
         edits: vec![vec![(28, 28, "-".to_string())], vec![(130, 130, "while ".to_string())], vec![(166, 171, "// c\n".to_string())], vec![(136, 137, "+".to_string())]],
         raw: vec![],
     });
+    // two single edits (valid -> valid) after which formatting killed the server of earlier
+    // versions (stale tree of the incremental parser in a procedure that is not the first one)
+    {
+        let t = "proc f() {}\nproc main() {\n  var y: int;\n  y := 2;\n}\n".to_string();
+        let off = t.find("var y: int").unwrap() + "var y: int".len();
+        scs.push(Scenario { text: t, edits: vec![vec![(off, off, ";".to_string())]], raw: vec![] });
+        let t = "proc f() {} proc main() { var i: int; if (i < 2) i := 1; else { i := 0; } i := 3; }".to_string();
+        let off = t.find("else {").unwrap() + 4;
+        scs.push(Scenario { text: t, edits: vec![vec![(off, off + 1, "{}".to_string())]], raw: vec![] });
+    }
     // programs far beyond the small bounds: 2 500 statements, as one line of 60 KB and as
     // 25 000 lines (requests at sampled positions, see `positions`)
     for layout in [Layout::Minimal, Layout::Lines, Layout::Cr] {
